@@ -152,10 +152,45 @@ type schemaPG struct {
 	log    []string
 }
 
+// PostgreSQL's reserved key words (documentation, appendix "SQL Key Words",
+// category "reserved", releases up to 15): as a column name each of them is a
+// syntax error unless it is double-quoted. The stand-in database refuses
+// statements that use one unquoted, as the server would.
+var pgReserved = func() map[string]bool {
+	m := map[string]bool{}
+	for _, w := range strings.Fields(`all analyse analyze and any array as asc asymmetric both case cast check collate column constraint create current_catalog current_date current_role current_time current_timestamp current_user default deferrable desc distinct do else end except false fetch for foreign from grant group having in initially intersect into lateral leading limit localtime localtimestamp not null offset on only or order placing primary references returning select session_user some symmetric table then to trailing true union unique user using variadic when where window with`) {
+		m[w] = true
+	}
+	return m
+}()
+
+func unquotedReserved(tok string) bool {
+	return !strings.HasPrefix(tok, `"`) && pgReserved[strings.ToLower(tok)]
+}
+
+var indexRe = regexp.MustCompile(`^create (unique )?index if not exists \S+ on \S+ \((.*)\)$`)
+
 var alterRe = regexp.MustCompile(`^alter table (\S+) add column if not exists (\S+) `)
 
 func (p *schemaPG) Exec(_ context.Context, q string, _ ...any) (pgconn.CommandTag, error) {
 	p.log = append(p.log, q)
+	if m := createRe.FindStringSubmatch(q); m != nil {
+		for _, c := range strings.Split(m[2], ", ") {
+			if f := strings.Fields(c); len(f) > 0 && unquotedReserved(f[0]) {
+				return pgconn.CommandTag{}, fmt.Errorf("syntax error at or near %q", f[0])
+			}
+		}
+	}
+	if m := indexRe.FindStringSubmatch(q); m != nil {
+		for _, c := range strings.Split(m[2], ", ") {
+			if unquotedReserved(strings.TrimSpace(c)) {
+				return pgconn.CommandTag{}, fmt.Errorf("syntax error at or near %q", c)
+			}
+		}
+	}
+	if m := alterRe.FindStringSubmatch(q); m != nil && unquotedReserved(m[2]) {
+		return pgconn.CommandTag{}, fmt.Errorf("syntax error at or near %q", m[2])
+	}
 	if m := createRe.FindStringSubmatch(q); m != nil {
 		if _, ok := p.tables[m[1]]; !ok {
 			var cols []string
@@ -484,6 +519,29 @@ func TestVerifSchemaBounded(t *testing.T) {
 			}
 			report(runConf(fmt.Sprintf("shared#%d+%d", i, j), []igSpec{mk1("a", "shared", variants[0]), mk2("b", "shared", variants[4])}))
 			report(runConf(fmt.Sprintf("separate#%d+%d", i, j), []igSpec{mk1("a", "t1", variants[2]), mk2("b", "t2", variants[1])}))
+		}
+	}
+	// two integrations with the same NUMBER of columns but different names on one table
+	for i, mk1 := range singles {
+		for j, mk2 := range singles {
+			if i < j {
+				report(runConf(fmt.Sprintf("shared-same-count#%d+%d", i, j), []igSpec{mk1("a", "shared", variants[0]), mk2("b", "shared", variants[0])}))
+			}
+		}
+	}
+	// a user column named like a reserved key word of the database (every one of
+	// them, lower and upper case): the definitions and migrations must quote it
+	{
+		var words []string
+		for w := range pgReserved {
+			words = append(words, w)
+		}
+		sort.Strings(words)
+		for _, w := range words {
+			for _, name := range []string{w, strings.ToUpper(w)} {
+				v := variant{extra: []wpg.Column{{Name: name, Type: "text"}}}
+				report(runConf("reserved-word-column "+name, []igSpec{singles[0]("a", "t", v)}))
+			}
 		}
 	}
 	// a filter reference must not disturb the referenced integration's key: the
